@@ -5,7 +5,7 @@
 //!                frames(`/`-joined hex, `.` empty, `!` = the body stream yields an error there; for
 //!                complete_multipart_upload: one frame per part, `!` = that part was never uploaded; for
 //!                concurrent: one frame per writer = that writer's whole content)
-//!                fault(none | drop-woken:<p> | drop-inflight:<p> | cksum-bad:<alg> | cksum-good:<alg> | metafail |
+//!                fault(none | declared (no fault; Content-Length declared) | drop-woken:<p> | drop-inflight:<p> | cksum-bad:<alg> | cksum-good:<alg> | metafail |
 //!                infofail | destdir | seed:<n> (concurrent)) hasmeta(0|1) big(0|1: complete_multipart_upload only —
 //!                every part but the last is padded to 5 MiB so that the size rule passes)
 //!                keymode(plain: key `obj` | newparent: key `nd/obj`, directory `nd` does not exist — `done()` has to
@@ -438,6 +438,10 @@ fn run_single(
             }
         }
     }
+    // fault `declared`: no fault of its own; the request declares its Content-Length (the total of the data frames), as every
+    // request that comes through the HTTP layer does - an error item of the body stream must count wherever it sits, also after
+    // the last declared byte
+    let declared: Option<i64> = (fault == "declared").then(|| frames.iter().flatten().map(Vec::len).sum::<usize>() as i64);
     let disk = Disk { root: root.to_path_buf(), key: key.to_owned(), dest: dest.clone(), new_content, new_info };
     let pulled = Arc::new(AtomicUsize::new(0));
     let progress = Arc::new(AtomicUsize::new(0));
@@ -474,6 +478,7 @@ fn run_single(
                 .bucket("b".to_owned())
                 .key(key.to_owned())
                 .body(Some(body(frames.to_vec())))
+                .content_length(declared)
                 .metadata(new_metadata(hasmeta))
                 .checksum_crc32(ck.0.clone())
                 .checksum_crc32c(ck.1.clone())
@@ -491,6 +496,7 @@ fn run_single(
                 .upload_id(upload_id.clone())
                 .part_number(1)
                 .body(Some(body(frames.to_vec())))
+                .content_length(declared)
                 .build()
                 .unwrap();
             let d = drive(fs.upload_part(req(input)), mode, &snapshot, &phase);
@@ -650,6 +656,8 @@ fn generate(rng: &mut Rng, n: u64, tier: &str, emit: &mut dyn FnMut(Vec<String>)
                         v.extend_from_slice(&fs[k + 1..]);
                     }
                     emit(mk(op, prev, fr(&v), "none".into(), true && op == "put_object", false));
+                    // the same with the Content-Length declared (total of the data frames that are there)
+                    emit(mk(op, prev, fr(&v), "declared".into(), true && op == "put_object", false));
                 }
                 let maxp = if thorough { 16 } else { 12 };
                 if fs.len() <= 3 || thorough {
